@@ -87,6 +87,18 @@ def rule_type(env, shared):
     return out
 
 
+def _callable_by_clients(F, info):
+    """can safe client code call this function? inherent/free functions must be exported (nameable); a trait method is
+    callable as soon as the trait is nameable and the implementing type is reachable (as a value or through an associated
+    type such as `<X as ConcurrentIter>::BufferedIter`)"""
+    tr = info.get("trait")
+    if tr and info.get("container") in ("trait_impl", "trait"):
+        t = F.traits.get(norm_std(tr))
+        trait_nameable = True if t is None else bool(t.get("exported"))
+        return bool(info.get("reachable")) and trait_nameable
+    return bool(info.get("exported"))
+
+
 def rule_surface(env, shared):
     """SURFACE: no *safe* function with public effective visibility lets the caller choose the index / ticket of a raw
     element access (move-out, view over storage, access to the wrapped iterator's cell), and no safe public path hands out
@@ -95,18 +107,24 @@ def rule_surface(env, shared):
     R, F, ev = env.R, env.F, env.ev
     n = 0
     for d, info in F.fns.items():
-        if not info.get("reachable") or info.get("unsafe") or d not in F.bodies:
+        # callable from client code: exported (nameable) itself — for trait methods the trait must be nameable
+        if info.get("unsafe") or d not in F.bodies or not _callable_by_clients(F, info):
             continue
         b = F.bodies[d]
         if F.is_test_item(b):
             continue
         sa = F.impl_self_adt(b)
+        owner = sa
         if sa not in R.impl:
-            continue
-        r = R.impl[sa]
+            # chunk pullers act on behalf of their implementor
+            owners = [a for a, rr in R.impl.items() if rr.get("puller") == sa and rr["kind"] != "adaptor"]
+            if not owners:
+                continue
+            owner = owners[0]
+        r = R.impl[owner]
         if r["kind"] == "adaptor":
             continue
-        w = env.world_of(sa)
+        w = env.world_of(owner)
         n += 1
         hits = []
         for e in env.flat_events(b, sa, w):
@@ -117,13 +135,19 @@ def rule_surface(env, shared):
                     off = unref(e.args[1])
                     if off[0] == "param" and off[1] >= 2:
                         hits.append((e, "raw pointer into the storage at the caller's index"))
-                if mdl == "UnsafeCell::get" and e.args and R.classify(e.args[0]) == ("cell", sa):
+                if mdl == "UnsafeCell::get" and e.args and R.classify(e.args[0]) == ("cell", owner):
                     # admission compares a parameter with the now-serving counter
                     for f in env.event_facts(e):
                         if f[0] == "eq" and len(f) == 3:
                             for x in (f[1], f[2]):
                                 if unref(x)[0] == "param" and unref(x)[1] >= 2:
                                     hits.append((e, "wrapped iterator used under a caller-chosen ticket"))
+        # a safe public function that hands out a reference / pointer into cell-protected storage
+        rt = ev.local(env.ctx(b, sa, w), 0)
+        for x in subterms(rt):
+            if x[0] == "call" and x[1] == "UnsafeCell::get" and x[2] and R.classify(x[2][0])[0] in ("cell", "store") \
+                    and (b.info or {}).get("output", {}).get("k") in ("ref", "ptr"):
+                hits.append((None, "it returns a reference into the storage behind the UnsafeCell"))
         k = "SURFACE|%s" % env.fname(b)
         if hits:
             e, what = hits[0]
@@ -137,7 +161,7 @@ def rule_surface(env, shared):
     counter_getters = []
     for adt in unsafe_storage:
         cb = R.method_body(R.T_ATOMIC, "counter", adt)
-        if cb is not None and (cb.info or {}).get("reachable") and not (cb.info or {}).get("unsafe"):
+        if cb is not None and _callable_by_clients(F, cb.info or {}) and not (cb.info or {}).get("unsafe"):
             counter_getters.append(adt)
     for d, info in F.fns.items():
         if d not in F.bodies:
@@ -151,7 +175,7 @@ def rule_surface(env, shared):
         if not stores:
             continue
         k = "SURFACE|%s|position-counter-mutator" % env.fname(b)
-        if info.get("reachable") and not info.get("unsafe") and counter_getters:
+        if info.get("exported") and not info.get("unsafe") and counter_getters:
             out.append(Ob("SURFACE", k, "viol", b.file_line(),
                           "%s is a safe public function that overwrites a counter, and the position counter of %s is handed "
                           "out by the safe public method `counter()`: safe client code can rewind a consuming iterator and "
